@@ -486,7 +486,7 @@ func runC02(c *fw.Ctx) {
 	base := hx.NewStdEnv()
 	r := c.Rand("seq")
 	steps := c.Pick(40, 200)
-	for i := 0; i < c.PerShard(c.Pick(2400, 40000)); i++ {
+	for i := 0; i < c.PerShard(c.Pick(2400, 24000)); i++ {
 		c02Sequence(c, base, r, fmt.Sprintf("seq-%d", i), steps)
 	}
 	r2 := c.Rand("conc")
